@@ -598,11 +598,16 @@ where
             Some(_) => {
                 let mut recorder = crate::path_map::PathRecorder::new();
                 let value_res = crate::anchor_store::with_document_scope(|| {
-                    T::deserialize(crate::de::YamlDeserializer::new_with_path_recorder(
-                        &mut src,
-                        cfg,
-                        &mut recorder,
-                    ))
+                    let before = src.consumed_events();
+                    let value = T::deserialize(
+                        crate::de::YamlDeserializer::new_with_path_recorder(
+                            &mut src,
+                            cfg,
+                            &mut recorder,
+                        ),
+                    )?;
+                    skip_document_if_unread(&mut src, cfg, before)?;
+                    Ok(value)
                 });
                 let value = match value_res {
                     Ok(v) => v,
@@ -845,11 +850,16 @@ where
                     Ok(Some(_)) => {
                         let mut recorder = crate::path_map::PathRecorder::new();
                         let value_res = crate::anchor_store::with_document_scope(|| {
-                            T::deserialize(crate::de::YamlDeserializer::new_with_path_recorder(
-                                &mut self.src,
-                                self.cfg,
-                                &mut recorder,
-                            ))
+                            let before = self.src.consumed_events();
+                            let value = T::deserialize(
+                                crate::de::YamlDeserializer::new_with_path_recorder(
+                                    &mut self.src,
+                                    self.cfg,
+                                    &mut recorder,
+                                ),
+                            )?;
+                            skip_document_if_unread(&mut self.src, self.cfg, before)?;
+                            Ok(value)
                         });
                         let value = match value_res {
                             Ok(v) => v,
@@ -1011,11 +1021,16 @@ where
             Some(_) => {
                 let mut recorder = crate::path_map::PathRecorder::new();
                 let value_res = crate::anchor_store::with_document_scope(|| {
-                    T::deserialize(crate::de::YamlDeserializer::new_with_path_recorder(
-                        &mut src,
-                        cfg,
-                        &mut recorder,
-                    ))
+                    let before = src.consumed_events();
+                    let value = T::deserialize(
+                        crate::de::YamlDeserializer::new_with_path_recorder(
+                            &mut src,
+                            cfg,
+                            &mut recorder,
+                        ),
+                    )?;
+                    skip_document_if_unread(&mut src, cfg, before)?;
+                    Ok(value)
                 });
                 let value = match value_res {
                     Ok(v) => v,
@@ -1248,11 +1263,16 @@ where
                     Ok(Some(_)) => {
                         let mut recorder = crate::path_map::PathRecorder::new();
                         let value_res = crate::anchor_store::with_document_scope(|| {
-                            T::deserialize(crate::de::YamlDeserializer::new_with_path_recorder(
-                                &mut self.src,
-                                self.cfg,
-                                &mut recorder,
-                            ))
+                            let before = self.src.consumed_events();
+                            let value = T::deserialize(
+                                crate::de::YamlDeserializer::new_with_path_recorder(
+                                    &mut self.src,
+                                    self.cfg,
+                                    &mut recorder,
+                                ),
+                            )?;
+                            skip_document_if_unread(&mut self.src, self.cfg, before)?;
+                            Ok(value)
                         });
                         let value = match value_res {
                             Ok(v) => v,
@@ -1335,6 +1355,21 @@ pub(crate) fn maybe_with_snippet(
     } else {
         err
     }
+}
+
+/// A target type that reads nothing from its deserializer leaves the document where it was.
+/// In a stream the same document would then be offered again and again; move past it.
+fn skip_document_if_unread(
+    src: &mut LiveEvents<'_>,
+    cfg: crate::de::Cfg,
+    consumed_before: u64,
+) -> Result<(), Error> {
+    if src.consumed_events() == consumed_before {
+        <serde::de::IgnoredAny as serde::Deserialize>::deserialize(
+            crate::de::YamlDeserializer::new(src, cfg),
+        )?;
+    }
+    Ok(())
 }
 
 /// Deserialize multiple YAML documents from a single string into a vector of `T`.
@@ -1445,7 +1480,10 @@ pub fn from_multiple_with_options<T: DeserializeOwned>(
             }
             Some(_) => {
                 let value_res = crate::anchor_store::with_document_scope(|| {
-                    T::deserialize(crate::de::YamlDeserializer::new(&mut src, cfg))
+                    let before = src.consumed_events();
+                    let value = T::deserialize(crate::de::YamlDeserializer::new(&mut src, cfg))?;
+                    skip_document_if_unread(&mut src, cfg, before)?;
+                    Ok(value)
                 });
                 let value = match value_res {
                     Ok(v) => v,
@@ -2003,10 +2041,13 @@ where
                     }
                     Ok(Some(_)) => {
                         let res = crate::anchor_store::with_document_scope(|| {
-                            T::deserialize(crate::de::YamlDeserializer::new(
+                            let before = self.src.consumed_events();
+                            let value = T::deserialize(crate::de::YamlDeserializer::new(
                                 &mut self.src,
                                 self.cfg,
-                            ))
+                            ))?;
+                            skip_document_if_unread(&mut self.src, self.cfg, before)?;
+                            Ok(value)
                         });
                         if res.is_err() {
                             // After a deserialization error, skip remaining events in the
